@@ -564,7 +564,14 @@ impl WorldGen {
             }
             87 | 88 => {
                 let ch = if self.r.chance(50) { self.s.channel.clone() } else { "channel-99999".to_string() };
-                let seq = if self.r.chance(50) { self.r.below(self.w.chain.next_seq + 3) } else { 1_000_000 + self.r.below(10) };
+                // mostly the sequence of a record the contract holds (a callback of ANOTHER channel that happens to carry it)
+                let seq = if !v.pkts.is_empty() && self.r.chance(60) {
+                    self.r.pick(&v.pkts).sequence
+                } else if self.r.chance(50) {
+                    self.r.below(self.w.chain.next_seq + 3)
+                } else {
+                    1_000_000 + self.r.below(10)
+                };
                 // a stray callback must not name a packet that is genuinely in flight on our channel
                 let genuine = ch == self.s.channel && self.w.chain.packets.contains_key(&seq);
                 if !genuine {
@@ -793,6 +800,42 @@ impl WorldGen {
         }
         for (u, wv) in withdraws.iter() {
             run_probe(self, u, "[]", wv);
+        }
+    }
+
+    /// Calls in states the random walk seldom reaches, each sequence inside one rolled-back transaction:
+    /// rewards (and a stake) right after the admin re-based the totals to "stake but no LST".
+    pub fn edge_probes(&mut self) {
+        let v = view(&self.w.sim);
+        let admin = v.admin.clone().unwrap_or_default();
+        let ch = self.s.channel.clone();
+        let collector = v.cfg.native_chain_config.reward_collector_address.to_string();
+        let hook_c = staking::helpers::derive_intermediate_sender(&ch, &collector, CHAIN_PREFIX).unwrap_or_default();
+        let t = self.w.now_ns;
+        let n = 1 + self.r.u128_upto(1_000_000);
+        let a = 100_000 + self.r.u128_upto(1_000_000);
+        let seqs: Vec<Vec<(String, String, String)>> = vec![
+            vec![
+                (admin.clone(), "[]".to_string(), "breaker".to_string()),
+                (admin.clone(), "[]".to_string(), format!("resume {} 0 {}", n, v.st.total_reward_amount.u128())),
+                (hook_c.clone(), format!("[{}:{}]", hs(D), a), "rewards".to_string()),
+            ],
+            vec![
+                (admin.clone(), "[]".to_string(), "breaker".to_string()),
+                (admin.clone(), "[]".to_string(), "resume 0 0 0".to_string()),
+                (hook_c.clone(), format!("[{}:{}]", hs(D), a), "rewards".to_string()),
+            ],
+        ];
+        for sq in seqs {
+            let snap = clone_storage(&self.w.sim.deps.storage);
+            self.w.ops.push("tx_begin".to_string());
+            for (who, funds, variant) in sq.iter() {
+                let toks: Vec<&str> = variant.split(' ').collect();
+                self.w.ops.push(format!("exec {} 1 {} {} {}", t, hs(who), funds, variant));
+                self.w.sim.execute(t, Some(1), who, p_list(funds, p_coin), parse_exec(&toks));
+            }
+            self.w.ops.push("tx_abort".to_string());
+            self.w.sim.deps.storage = snap;
         }
     }
 
